@@ -176,7 +176,13 @@ func build(m *fixture.Module, cfg config) []layout.Pkg {
 			}
 		}
 		if cfg.Stale {
-			m.MustWrite(filepath.Join(d, cfg.Base+".old.go"), "package "+p.Name+"\n\n// stale output of a generator that is no longer run\n")
+			// (in every other package the stale output opens with a //line directive, as files written by goyacc or a
+			// template engine do: its declarations are REPORTED under another name, the file on disk is what counts)
+			lineDir := ""
+			if len(d)%2 == 1 {
+				lineDir = "//line old.y:1\n"
+			}
+			m.MustWrite(filepath.Join(d, cfg.Base+".old.go"), lineDir+"package "+p.Name+"\n\n// stale output of a generator that is no longer run\n")
 			m.MustWrite(filepath.Join(d, cfg.Base+".gone.go"), prevContent(p.Name, "gone"))
 		}
 	}
@@ -189,6 +195,9 @@ func build(m *fixture.Module, cfg config) []layout.Pkg {
 		m.MustWrite("_sibling/contrib/go.mod", "module "+mod+"-contrib\n\ngo 1.24\n")
 		m.MustWrite("_sibling/contrib/contrib.go", "// +gengo:g1\n// +gengo:gTwo\n// +gengo:g3\npackage contrib\n\ntype Anchor struct{ N int }\n\ntype Extra struct{}\n")
 	}
+	// a user file of package a whose //line directive claims the name of an output file of package c (which a run on
+	// ./a does not select): c's file is none of a's business
+	m.MustWrite("a/legacy.go", "//line ../c/"+cfg.Base+".g1.go:1\npackage a\n\ntype Legacy struct{ N int }\n")
 	m.MustWrite("README.md", "# scratch\n")
 	m.MustWrite("a/testdata/x/x.go", "package x\n\ntype X struct{}\n")
 	m.MustWrite("a/testdata/x/"+cfg.Base+".g1.go", "package x\n")
